@@ -301,6 +301,28 @@ def systematic_forms():
     return out
 
 
+def rank_edge_inputs():
+    """explicit ranks that coincide with another field's default rank (isize::MIN + declaration index), and extremes"""
+    out = []
+    n = 0
+    MIN = -(2 ** 63)
+    for t, extra in (("Ord", "PartialEq, Eq, PartialOrd, "), ("PartialOrd", "PartialEq, ")):
+        for i in range(3):
+            for j in range(4):
+                for spell in ("rank = %d", "rank(%d)", "rank = \"%d\""):
+                    r = spell % (MIN + j)
+                    attrs = ["", "", ""]
+                    attrs[i] = "#[educe(%s(%s))] " % (t, r)
+                    out.append(("r%d" % n, "#[derive(Educe)] #[educe(%s%s)] struct S { %sa: u8, %sb: u8, %sc: u8 }" %
+                                (extra, t, attrs[0], attrs[1], attrs[2])))
+                    out.append(("r%d" % (n + 1), "#[derive(Educe)] #[educe(%s%s)] struct S(%su8, %su8, %su8);" %
+                                (extra, t, attrs[0], attrs[1], attrs[2])))
+                    out.append(("r%d" % (n + 2), "#[derive(Educe)] #[educe(%s%s)] enum E { V(%su8, %su8, %su8), W { %sx: u8, %sy: u8, %sz: u8 } }" %
+                                (extra, t, attrs[0], attrs[1], attrs[2], attrs[0], attrs[1], attrs[2])))
+                    n += 3
+    return out
+
+
 def gen_inputs(seed, n):
     base = []
     k = 0
@@ -313,7 +335,8 @@ def gen_inputs(seed, n):
             td = G.random_type(rng, G.random_trait_set(rng), G.Opts(rich=rng.random() < 0.3, max_fields=3,
                                                                      max_variants=3))
         base.append(S.render(td, rng, extras=False).replace("::educe::Educe", "Educe"))
-    out = [("h%d" % i, t) for i, t in enumerate(HAND)] + [("h" + cid, t) for cid, t in systematic_forms()]
+    out = [("h%d" % i, t) for i, t in enumerate(HAND)] + [("h" + cid, t) for cid, t in systematic_forms()] + \
+        [("h" + cid, t) for cid, t in rank_edge_inputs()]
     for i in range(n):
         rng = rng_for(seed, PROP, "mut", i)
         out.append(("m%d" % i, mutate_text(rng, rng.choice(base))))
